@@ -47,7 +47,7 @@ class SCase:
                 dt = int(dt)
                 if k[0] == "A":
                     self.events.append(("ack", int(k[1:]), dt))
-                elif k == "E":
+                elif k[0] == "E" and (len(k) == 1 or k[1:].isdigit()):
                     self.events.append(("error", None, dt))
                 elif k == "O":
                     self.events.append(("other", None, dt))
@@ -84,7 +84,7 @@ class RCase:
             if e[0] == "D":
                 n, p = e[1:].split(":", 1)
                 self.events.append(("data", int(n), content(p)))
-            elif e == "E":
+            elif e[0] == "E" and (len(e) == 1 or e[1:].isdigit()):
                 self.events.append(("error", None, None))
             else:
                 self.events.append(("fail", None, None))
